@@ -98,7 +98,8 @@ CHECKS["C01"] = dict(
          "result of one successful calculate() over the whole stream. Indicators that keep their running state in one managed helper "
          "series (VWAP, StandardDeviation, RSI: _calculate_reading writes the helper's slot of the same candle, reads it back, may write "
          "it again): an engine theorem for this shape (Proofs/DataSlot.v) with the per-class obligation discharged - any chunking ends in "
-         "exactly the store or the exception of one calculate() over the whole stream. "
+         "exactly the store or the exception of one calculate() over the whole stream, also on a collapsing timeframe (re-collapse, then calculate); "
+         "and a composite over such a helper, StandardDeviationThreshold over its StandardDeviation series: every chunked run ends in the result of one successful calculate(). "
          "The two obligations are discharged for HLA, TR, OBV, EMA, SMA, RMA, WMA, VWMA, ROC, Counter, HL, Donchian, AROON and every Amorph-wrapped analysis "
          "function (all periods >= 1, all inputs not reading the own slot). " + ENGINE_TIE +
          "Falsifier: incremental vs batch deep equality over all 27 kinds + Amorph wrappers, base/S/T/H/D timeframes, fill, HA.",
@@ -111,7 +112,7 @@ CHECKS["C02"] = dict(
          "look-ahead), appending to a calculated indicator leaves every existing candle and reading untouched (no repaint), and on a "
          "collapsing timeframe every bucket but the last (open) one keeps its readings when more candles arrive - with gap filling too (closed "
          "buckets and the fill candles between them); batch causality also for "
-         "the composite ATR (parent over its helper series), and both statements for VWAP, StandardDeviation and RSI (one managed helper series). "
+         "the composite ATR (parent over its helper series), and both statements for VWAP, StandardDeviation and RSI (one managed helper series; closed buckets final on a timeframe too), batch causality for StandardDeviationThreshold. "
          + ENGINE_TIE + "Falsifier: snapshot(t) minus the open bucket is a prefix of snapshot(t') on live appends, batch-on-prefix vs batch-on-whole.",
     note="Leaf indicators with discharged obligations (see C01); other kinds by correspondence + falsifier. Axioms: none.",
     technique="Coq proof (prefix stability of the canonical semantics) + vm_compute correspondence + falsifier", design="5/C02")
@@ -214,6 +215,7 @@ CHECKS["C13"] = dict(
          "the same with the candles going through any candle manager (collapsing timeframe, gap filling, Heikin-Ashi, lifespan in any "
          "combination: mgr_append on both sides) - timestamps, values and B's entries agree candle by candle and the next append raises alike "
          "(from a parametricity theorem: candle management respects any reflexive relation that implies equal values, clean values and tags); "
+         "for B = VWAP, StandardDeviation or RSI (one managed helper series) the same statement over the relation "same for B" (timestamp, OHLCV, the readings the class looks at, B's and its helper's entries) - calculate() respects it, so B ends with the same readings along every paired history; "
          "at the level of the container: two Hexitals with different other members and different programs that hand B the same candles and "
          "the same calculate() calls leave B with the same candles and readings. "
          "Tie: the Hexital model (two members, the operations aimed at one of them) run "
@@ -229,7 +231,7 @@ CHECKS["C14"] = dict(
          "it replaced, calculate_index on a computed index (+/-) leaves the store unchanged, and every program over append/calculate/"
          "purge/recalculate/such recomputations ends in a state on which calculate() equals one calculate() over all candles appended; "
          "calculate() is idempotent for the composite ATR as well; for VWAP, StandardDeviation and RSI (one managed helper series) all of these - "
-         "idempotence, recalculate, calculate_index on a computed index, convergence of programs - are proved too (purge removes reading and helper series). " + ENGINE_TIE +
+         "idempotence, recalculate, calculate_index on a computed index, convergence of programs - are proved too (purge removes reading and helper series); idempotence also for StandardDeviationThreshold. " + ENGINE_TIE +
          "(incl. calculate/calculate_index/recalculate/purge sequences; every operation program also runs on the Hexital model, check_hx). Falsifier: idempotence, recalculate fixpoint, purge exactness, calculate_index "
          "on computed indices (+/-), and random programs over append/calculate/purge/recalculate/calculate_index/add/remove on Hexitals "
          "(also members sharing helpers) ending in calculate() = batch state; recalculate([name]) must leave the whole table of readings as it was.",
